@@ -39,6 +39,9 @@ Inductive expr :=
 | ENot (a : expr)
 | EBound (v : var)
 | EExists (pos : bool) (p : alg)
+| EIn (pos : bool) (a : expr) (cs : list term)     (* a IN (c1, ...) / NOT IN, constants only *)
+| ECoalesce (a b : expr)
+| EIf (c a b : expr)
 with alg :=
 | BGP (ts : list tpat)
 | Join (lazy : bool) (p1 p2 : alg)
